@@ -69,6 +69,7 @@ func fieldNameAt(t types.Type, idx int) string {
 func strictOn() Check { return Check{Desc: "strict mode on", Pass: IsTrue, Values: strictVals} }
 
 func c20(r *Report) {
+	defer c20Seed5(r)
 	defer c20Audit4(r)
 	p := r.P
 	r.Explanation = "Static decision that each documented strict-mode refusal exists and is wired to the flag: for every refusal the failing branch is reachable under the strict flag and its own option only (with the flag on and the insecure option present, success is unreachable; the effect that is insecure is reachable only with the flag off); the flag reaches every component that consults it (every strict-mode struct field / global is assigned from the server configuration's flag, never left at its zero value); strict is the default; outbound HTTP goes through the strict client, which refuses non-https requests when the flag is on; configuration keys that moved and secrets on the command line are refused independently of the flag."
